@@ -22,6 +22,7 @@ type totpCase struct {
 	NilParam bool            `json:"nil_param"`
 	Digits   uint8           `json:"digits"`
 	Algo     uint8           `json:"algo"`
+	Skew     uint64          `json:"skew_unused"` // generation does not use Skew; any value must leave the result unchanged
 }
 
 func callGenerateTOTP(secret string, t time.Time, p *otp.Param) (code string, err error, pan any) {
@@ -42,7 +43,8 @@ func judgeTOTP(c *Ctx, k totpCase) {
 	if k.NilParam {
 		digits, algo, period = 6, ref.SHA1, 30
 	} else {
-		p = &otp.Param{Digits: otp.Digits(k.Digits), Algorithm: otp.Algorithm(k.Algo), Period: uint(k.Period)}
+		k.Skew = unusedField(uint64(k.At.Unix) ^ uint64(len(k.Secret)))
+		p = &otp.Param{Digits: otp.Digits(k.Digits), Algorithm: otp.Algorithm(k.Algo), Period: uint(k.Period), Skew: uint(k.Skew)}
 	}
 	code, err, pan := callGenerateTOTP(k.Secret, k.At.Time(), p)
 	r.Eval(1)
